@@ -443,6 +443,45 @@ func checkC10(c *ev.Ctx) {
 		}
 		c.Count("stepper_selfchecks", 1)
 	}
+	// second opinion on the stepper itself: strace (-f -y) must see the same sequence of counted
+	// syscalls on the scenario directory, and no file or descriptor syscall the stepper does not know
+	for i, s := range scens {
+		if s.Stdout || s.Existing || s.Input != "small" || s.Keep || s.Force || c.ReplayOf != "" {
+			continue
+		}
+		if c.Counter("strace_crosschecks") >= 4 {
+			break
+		}
+		dir := filepath.Join(base, s.ID+"-strace")
+		s.setup(dir, c.Seed)
+		names, err := straceNames(dir, s.args(dir))
+		os.RemoveAll(dir)
+		if err != nil {
+			c.Count("strace_unavailable", 1)
+			break
+		}
+		var got, unknown []string
+		for _, n := range names {
+			switch {
+			case sysstepKnown[n]:
+				got = append(got, n)
+			case !straceBenign[n]:
+				unknown = append(unknown, n)
+			}
+		}
+		var want []string
+		for _, e := range recs[i].Events {
+			want = append(want, e.Sys)
+		}
+		if len(unknown) > 0 {
+			c.Inconclusive(fmt.Sprintf("stepper blind spot: gxz used %v on the scenario directory (%s); tools/sysstep.c does not count these", unknown, s))
+		}
+		if strings.Join(got, " ") != strings.Join(want, " ") {
+			c.Inconclusive(fmt.Sprintf("stepper and strace disagree on %s: strace %v, sysstep %v", s, got, want))
+		}
+		c.Count("strace_crosschecks", 1)
+		c.Count("strace_crosscheck_syscalls_compared", int64(len(got)))
+	}
 	if !stdoutDevOK() {
 		c.Inconclusive("/dev/stdout disappeared during the run (harness safety rule violated)")
 	}
